@@ -52,8 +52,26 @@ def _none(v):
     return None if v == () else list(v)
 
 
-def call_real(sp, op, par, x):
-    """Run the sigpy function for one spec state; returns the output array."""
+def call_real(sp, op, par, x, conv=list):
+    """Run the sigpy function for one spec state; returns the output array.  `conv` is the container the integer
+    arguments are passed in (list, tuple, or a tuple of NumPy integers as np.array(...).shape-style arithmetic produces)."""
+    if conv is not list:
+        par = {k: (conv(v) if isinstance(v, (tuple, list)) and k not in ("ishape",) else v) for k, v in par.items()}
+        _n = lambda v: None if len(v) == 0 else conv(v)
+        if op == "resize":
+            return sp.resize(x, conv(par["oshape"]), ishift=_n(par["ishift"]), oshift=_n(par["oshift"]))
+        if op == "flip":
+            return sp.flip(x, axes=_n(par["axes"]))
+        if op == "circshift":
+            return sp.circshift(x, conv(par["shifts"]), axes=_n(par["axes"]))
+        if op == "downsample":
+            return sp.downsample(x, conv(par["factors"]), shift=conv(par["shift"]))
+        if op == "upsample":
+            return sp.upsample(x, conv(par["oshape"]), conv(par["factors"]), shift=conv(par["shift"]))
+        if op == "a2b":
+            return sp.array_to_blocks(x, conv(par["B"]), conv(par["S"]))
+        if op == "b2a":
+            return sp.blocks_to_array(x, conv(par["oshape"]), conv(par["B"]), conv(par["S"]))
     if op == "resize":
         return sp.resize(x, list(par["oshape"]), ishift=_none(par["ishift"]), oshift=_none(par["oshift"]))
     if op == "flip":
@@ -125,6 +143,14 @@ def check_state(sp, st, rng):
             return {"kind": "layout", "detail": "%s input is rearranged differently from the same values in C order" % lab}, nontrivial
         if not np.array_equal(xv, xv0):
             return {"kind": "input_mutated", "detail": "%s input array changed by the call" % lab, "props": ["C02", "C09"]}, nontrivial
+    # the integer arguments in other containers: tuples, and tuples of NumPy integers (what shape arithmetic on arrays produces)
+    for lab, conv in (("tuples", tuple), ("NumPy integers", lambda v: tuple(np.int64(t) for t in v))):
+        try:
+            yc = call_real(sp, op, par, x, conv=conv)
+        except Exception as e:
+            return {"kind": "exception", "detail": "arguments given as %s: %s: %s" % (lab, type(e).__name__, e)}, nontrivial
+        if tuple(yc.shape) != tuple(y.shape) or not np.array_equal(np.asarray(yc).ravel(), exp):
+            return {"kind": "value", "detail": "arguments given as %s are handled differently from lists" % lab}, nontrivial
     # real-valued input must be moved the same way (dtype preserved)
     xr = x.real.copy()
     yr = call_real(sp, op, par, xr)
